@@ -131,6 +131,29 @@ Theorem C10_async_view : forall P p r r' root d,
 Proof. exact c10_async_view. Qed.
 Print Assumptions C10_async_view.
 
+(* the same question again on the same Manager (round 7): two calls of one class answered with the same text under the same
+   call flag - the second anywhere after, before or inside the first (pre2 may contain the whole first call and any number
+   of others), or in another history - hand the caller the same result: outcome, data view (the Junos get-schema repair
+   included), transformed tree and parse sites.  The model has no state from which a reply could tell it is not the first. *)
+Theorem C10_life_repeat_sync : forall P Q Q2 p rk w cls forced raw pre1 id1 mid1 pre2 id2 mid2,
+  none_of (calls id1) mid1 -> none_of (delivers id1) mid1 -> none_of (sets id1) mid1 ->
+  none_of (calls id2) mid2 -> none_of (delivers id2) mid2 -> none_of (sets id2) mid2 ->
+  call_flag (mgr_huge_after (w_huge w) pre1) forced = call_flag (mgr_huge_after (w_huge w) pre2) forced ->
+  finish P Q Q2 p rk id1 (run_hist w (pre1 ++ ECall id1 cls forced :: mid1 ++ [EDeliver id1 raw])) =
+  finish P Q Q2 p rk id2 (run_hist w (pre2 ++ ECall id2 cls forced :: mid2 ++ [EDeliver id2 raw])).
+Proof. exact c10_life_repeat_sync. Qed.
+Print Assumptions C10_life_repeat_sync.
+
+Theorem C10_life_repeat_async : forall P p w cls forced raw pre1 id1 mid1 post1 pre2 id2 mid2 post2,
+  none_of (calls id1) (mid1 ++ post1) -> none_of (delivers id1) mid1 -> none_of (sets id1) mid1 ->
+  none_of (calls id2) (mid2 ++ post2) -> none_of (delivers id2) mid2 -> none_of (sets id2) mid2 ->
+  call_flag (mgr_huge_after (w_huge w) pre1) forced = call_flag (mgr_huge_after (w_huge w) pre2) forced ->
+  exists r, reply_of id1 (run_hist w (pre1 ++ ECall id1 cls forced :: mid1 ++ EDeliver id1 raw :: post1)) = Some r /\
+            reply_of id2 (run_hist w (pre2 ++ ECall id2 cls forced :: mid2 ++ EDeliver id2 raw :: post2)) = Some r /\
+            async_read P p r = async_read P p (mkReply cls raw (call_flag (mgr_huge_after (w_huge w) pre1) forced)).
+Proof. exact c10_life_repeat_async. Qed.
+Print Assumptions C10_life_repeat_async.
+
 (* ---------------- non-vacuity ---------------- *)
 Definition nm (u l : bytes) : name := (Some u, l).
 Definition ex_data : xnode :=
@@ -201,3 +224,16 @@ Example C10_ex_life_sync :
                          (run_hist (world0 true false) [ECall 7 ClsSchema true; ECall 8 ClsGet false; EDeliver 7 [1]; EDeliver 8 [2]]))
   = Some [(SReplyParse, true); (SXsltSheet, true); (SXsltInput, true); (SXsltOutput, true)].
 Proof. vm_compute. reflexivity. Qed.
+
+(* three Junos get-schema calls on one Manager, each answered with <data> in the BASE namespace (what Junos sends): the
+   profile's repair serves the third as it served the first - the schema text, not an AttributeError *)
+Definition ex_junos_schema : xnode := Elem n_reply [] [Elem n_data [] [Text [109]]].
+Example C10_ex_repeat :
+  let P := fun (_ : bool) (_ : bytes) => Some ex_junos_schema in
+  let h1 := [ECall 1 ClsSchema true; EDeliver 1 [5]] in
+  let h3 := h1 ++ [ECall 2 ClsSchema true; EDeliver 2 [5]; ESetMgrHuge true; ECall 3 ClsSchema true; EDeliver 3 [5]] in
+  data_of ClsSchema ex_junos_schema = DAttrErr /\
+  option_map fst (finish P P (fun _ x => Some x) PJunos RNone 1 (run_hist (world0 false false) h1)) =
+  option_map fst (finish P P (fun _ x => Some x) PJunos RNone 3 (run_hist (world0 false false) h3)) /\
+  fst (async_read P PJunos (mkReply ClsSchema [5] true)) = OReply (mkReply ClsSchema [5] true) ex_junos_schema (DText (Some [109])).
+Proof. vm_compute. repeat split. Qed.
